@@ -20,6 +20,11 @@ MODULES = {
 }
 
 try:
+    import gen_print
+    MODULES['Print'] = gen_print.generate
+except ImportError:
+    pass
+try:
     import gen_walk
     MODULES['WalkTar'] = gen_walk.generate
 except ImportError:
